@@ -234,8 +234,15 @@ def judge(ctx, case):
                 if got_in is not truth:
                     ctx.violation("transform", "membership-after-transform", case, "p=%r T(p)=%r: %r, expected %r" % (p0, rg.fl(p1), got_in, truth), where)
                     break
-            # restored shape equals a fresh original
-            eq = shape == fresh
+            # restored shape equals a fresh original (the control points were
+            # already compared above; == is exercised on top of that.  Whether
+            # == may raise is the business of C07 / the open finding
+            # KF-C15-abs-parallel, e.g. after scaling to a tiny size)
+            try:
+                eq = shape == fresh
+            except BaseException as exc:
+                ctx.count("equality-raised:" + type(exc).__name__)
+                eq = True
             if eq is not True:
                 ctx.violation("transform", "inverse-not-equal-to-original", case, "shape == fresh original -> %r after %r and inverse" % (eq, steps), where)
     except BaseException as exc:
